@@ -30,6 +30,11 @@ def sync : List String := ["access", "write", "hashcheck", "loadable", "load"]
 which a snapshot written while the log grows can be loaded. -/
 def saveSnapshot : List String := ["heads", "len", "entries"]
 
+/-- `LoadFromSnapshot` (`Snap.statusAfterLoad`): the log is rebuilt from the recorded heads, the
+largest clock is taken over the entries of THAT log (not over every record of the file), the maximum
+is raised, the log is joined, the view refreshed and the status brought up to date (C19). -/
+def loadSnapshot : List String := ["rebuild", "count", "max", "join", "index", "status"]
+
 /-- `kvIndex.UpdateIndex` / `documentIndex.UpdateIndex` (`Model/ViewRace.lean`, `locked := true`): the
 log is copied under the index lock. -/
 def updateIndex : List String := ["lock", "copy"]
